@@ -253,3 +253,17 @@ def set_ego(router, lat: int, lon: int, pai: bool = True, s: int = 0, h: int = 0
     router.ego_position_vector = LongPositionVector(
         gn_addr=old.gn_addr, tst=TST(msec=(VCLOCK.its_ms() if tst is None else tst) % 2 ** 32),
         latitude=lat, longitude=lon, pai=pai, s=s, h=h)
+
+
+# ---- enumeration members BY NAME: the code points are those of EN 302 636-4-1; the implementation's numbering is not trusted
+def header_type_by_name(ht: int):
+    from flexstack.geonet.service_access_point import HeaderType
+    return getattr(HeaderType, {1: "BEACON", 2: "GEOUNICAST", 3: "GEOANYCAST", 4: "GEOBROADCAST", 5: "TSB", 6: "LS"}[ht])
+
+
+def shape_hst_by_name(ht: int, hst: int):
+    """header sub-type of a GeoBroadcast (ht 4) / GeoAnycast (ht 3) packet for the shape code 0 circle, 1 rectangle, 2 ellipse"""
+    from flexstack.geonet.service_access_point import GeoBroadcastHST, GeoAnycastHST
+    if ht == 4:
+        return getattr(GeoBroadcastHST, ["GEOBROADCAST_CIRCLE", "GEOBROADCAST_RECT", "GEOBROADCAST_ELIP"][hst])
+    return getattr(GeoAnycastHST, ["GEOANYCAST_CIRCLE", "GEOANYCAST_RECT", "GEOANYCAST_ELIP"][hst])
